@@ -57,7 +57,8 @@ func modelFor(name, kind string, single bool) modelField {
 	}
 	switch {
 	case kind == kS:
-		return modelField{kind, " value of " + strings.ToLower(name), nil}
+		// the value ends in a letter whose last UTF-8 byte (0xA0) is white space when taken for a rune of its own
+		return modelField{kind, " value of " + strings.ToLower(name) + " citt\u00e0", nil}
 	case kind == kI:
 		return modelField{kind, " 12345", nil}
 	case kind == kB:
@@ -81,7 +82,7 @@ func modelFor(name, kind string, single bool) modelField {
 	case kind == kLb:
 		return modelField{kind, " alpha beta\n gamma", []string{"alpha", "beta", "gamma"}}
 	case kind == kM:
-		return modelField{kind, " short text\n long line\n .\n after the blank", nil}
+		return modelField{kind, " short text \u00c5\n long line voil\u00e0\n .\n after the blank", nil}
 	case kind == kH5:
 		h := hashHex["md5"]
 		return modelField{kind, "\n " + h + " 123 admin optional f_1_amd64.deb\n " + h + " 4567 libs extra f-doc_1_all.deb", []string{"md5|" + h + "|123|f_1_amd64.deb|admin|optional", "md5|" + h + "|4567|f-doc_1_all.deb|libs|extra"}}
